@@ -73,7 +73,7 @@ package nfs
 
 //@ define TXALLOC fstxn.FsTxn, alloctxn.AllocTxn, jrnl.Op, []uint64, map[uint64]*inode.Inode, cache.Cslot, inode.Inode, buf.Buf, marshal.Dec, marshal.Enc, cell:uint64, []uint8, addr.Addr
 //@ define TXMODS held, lastst, curop, freshinum, wroteinum, cphase, abits, dirtyinum, cache.Cslot.Obj, map[uint64]*inode.Inode, nfs.Nfs.stats
-//@ define SHRINKMODS shrinkdue, muheld, inode.Inode.ShrinkSize, []uint64@inode.Inode.blks, []uint64@alloctxn.AllocTxn.freeBnums, alloctxn.AllocTxn.freeBnums, buf.Buf.dirty, []uint8@buf.Buf.Data, zeroed
+//@ define SHRINKMODS dshrinks, shrinkdue, muheld, inode.Inode.ShrinkSize, []uint64@inode.Inode.blks, []uint64@alloctxn.AllocTxn.freeBnums, alloctxn.AllocTxn.freeBnums, buf.Buf.dirty, []uint8@buf.Buf.Data, zeroed
 //@ define FILEMODS tailzeroedto, inode.Inode.Size, inode.Inode.ShrinkSize, inode.Inode.Atime, inode.Inode.Mtime, inode.Inode.Kind, inode.Inode.Nlink, inode.Inode.Gen, inode.Inode.Inum, inode.Inode.Dcache, []uint64@inode.Inode.blks, alloctxn.AllocTxn.allocBnums, []uint64@alloctxn.AllocTxn.allocBnums, alloctxn.AllocTxn.freeBnums, []uint64@alloctxn.AllocTxn.freeBnums, alloctxn.AllocTxn.allocInums, []uint64@alloctxn.AllocTxn.allocInums, alloctxn.AllocTxn.freeInums, []uint64@alloctxn.AllocTxn.freeInums, buf.Buf.dirty, []uint8@buf.Buf.Data, zeroed, nldec
 //@ define DIRMODS lastremoved, emptychecked, dcache.Dcache.Lastoff, nfstypes.Entry3, cell:*nfstypes.Entry3, nfstypes.Entryplus3, cell:*nfstypes.Entryplus3, map[string]dcache.Dentry, emitted, emitany, emitlast, lastcookie, lastfileid, lastname, lasthino, lasthgen, lastattrid
 //@ define DIRALLOC dir.dirEnt, dcache.Dcache, map[string]dcache.Dentry, nfstypes.Entry3, nfstypes.Entryplus3
@@ -85,13 +85,16 @@ package nfs
 //@   props C05 C06 C03 C08 C09 C11 C01
 //@   requires rpcPre(nfs)
 //@   allocates fstxn.FsTxn, alloctxn.AllocTxn, jrnl.Op, []uint64, map[uint64]*inode.Inode, cache.Cslot, inode.Inode, buf.Buf, marshal.Dec, marshal.Enc, cell:uint64, []uint8, addr.Addr
-//@   modifies held, lastst, curop, freshinum, wroteinum, cphase, abits, dirtyinum, muheld, cache.Cslot.Obj, map[uint64]*inode.Inode, inode.Inode.ShrinkSize, []uint64@inode.Inode.blks, []uint64@alloctxn.AllocTxn.freeBnums, alloctxn.AllocTxn.freeBnums, buf.Buf.dirty, []uint8@buf.Buf.Data, zeroed
+//@   modifies held, lastst, curop, freshinum, wroteinum, cphase, abits, dirtyinum, muheld, cache.Cslot.Obj, map[uint64]*inode.Inode, inode.Inode.ShrinkSize, []uint64@inode.Inode.blks, []uint64@alloctxn.AllocTxn.freeBnums, alloctxn.AllocTxn.freeBnums, buf.Buf.dirty, []uint8@buf.Buf.Data, zeroed, dshrinks
 //@   ensures [open] txOpen(result0) && result0.Fs == nfs.fsstate && !muheld[base(nfs.shrinkst.mu)] @C09
 //@   ensures [H1-validated] result2 == 0 ==> goodIp(result1) && matches(result1, fh) && heldOnly(result1.Inum) @C08
 //@   ensures [F6-notshrinking] result2 == 0 ==> !result1.IsShrinking() @C05
 //@   ensures [err-nolocks] result2 != 0 ==> noLocks() @C06 @C09
 //@   ensures [Fn6-status] result2 == 0 || result2 == 70 || result2 == 10006 @C02
 //@   loop 0 invariant nfsInv(nfs) && noLocks() && dirtyInv() && allocInv() && !muheld[base(nfs.shrinkst.mu)]
+// D4 (C06): a lookup that finds the inode half-truncated retries only after helping the truncation
+// along itself (after a crash no background shrinker exists to wait for)
+//@   loop 0 decreases 18446744073709551615 - dshrinks
 
 //@ specfunc bigMods() = true
 //@ spec (*Nfs).NFSPROC3_GETATTR(nfs, args)
@@ -377,6 +380,7 @@ package nfs
 //@   ensures [F6-fresh] result3 == 0 ==> result2 != nil && held[result2.Inum] && validInum(result2.Inum) && result2.Inum != result1.Inum && inodeInv(result2) && result2.Kind == kind && result2.Nlink == 1 && !result2.IsShrinking() && result2.Size == 0 && (result2.Dcache != nil ==> result2.Dcache.Lastoff & 127 == 0 && result2.Dcache.cache != nil) @C05 @C08
 //@   ensures [Fn6-status] result3 == 0 || result3 == 70 || result3 == 17 || result3 == 28 || result3 == 10006 @C02
 //@   loop 0 invariant nfsInv(nfs) && txOpen(op) && noLocks() && op.Fs == nfs.fsstate && !muheld[base(nfs.shrinkst.mu)]
+//@   loop 0 decreases 18446744073709551615 - dshrinks
 
 // Fn8 (C02), I3/I4/I5 (C04), H3 (C08): creation. On success the new name is
 // bound to a fresh, initialised inode whose handle and attributes are returned;
